@@ -34,8 +34,8 @@ for nm, ct, ds in (('coded', 'FALSE', 'FALSE'), ('fixed', 'TRUE', 'FALSE'), ('fi
     cfg('quick_stream_%s.cfg' % nm, Modes='{"rec", "per"}', Kinds=ALLK, MaxOps=2, Filts='{"none", "client"}', Ops=STROPS, Contig=ct, DropStale=ds, coded=cd)
     cfg('quick_filt_%s.cfg' % nm, Modes='{"rec"}', Kinds=ALLK, MaxOps=2, Filts=FILT, Ops=STROPS, Contig=ct, DropStale=ds, coded=cd)
     # ---- thorough (exhaustive)
-    cfg('thorough_rec_%s.cfg' % nm, Modes='{"rec"}', Kinds=ALLK, MaxOps=3, Filts='{"none", "client"}', Ops=STROPS, Contig=ct, DropStale=ds, coded=cd)
-    cfg('thorough_per_%s.cfg' % nm, Modes='{"per"}', Kinds=ALLK, MaxOps=3, Filts='{"none", "server"}', Ops=STROPS, Contig=ct, DropStale=ds, coded=cd)
+    cfg('thorough_rec_%s.cfg' % nm, Modes='{"rec"}', Kinds=ALLK, MaxOps=3, Filts='{"none", "client"}', Ops=STROPS, N0s='{0, 2}', Contig=ct, DropStale=ds, coded=cd)
+    cfg('thorough_per_%s.cfg' % nm, Modes='{"per"}', Kinds=ALLK, MaxOps=3, Filts='{"none"}', Ops=STROPS, N0s='{0, 2}', Contig=ct, DropStale=ds, coded=cd)
     cfg('thorough_filt_%s.cfg' % nm, Modes='{"rec"}', Kinds=ALLK, MaxOps=3, Pages='{1}', Filts=FILT, Ops=STROPS, Contig=ct, DropStale=ds, coded=cd)
     # ---- simulation (behaviour generators for the replay; no VIEW)
     cfg('sim_%s.cfg' % nm, Modes='{"eph", "rec", "per"}', Kinds=ALLK, MaxOps=5, Filts=ALLF, Ops=STROPS, Pres='{0, 1}', N0s='{0, 1, 2}', Contig=ct, DropStale=ds, coded=True, view=False, sim=True)
